@@ -4,8 +4,10 @@ VERIF = os.path.dirname(os.path.dirname(os.path.abspath(__file__)))
 BASE = os.environ.get('SEED_BASE', 'HEAD')     # the /repo commit the stored patch was written against
 name = sys.argv[1]
 pids = sys.argv[2:] or [c['property_id'] for c in json.load(open(os.path.join(VERIF, 'MANIFEST.json')))['checks']]
-wt = tempfile.mkdtemp(prefix=f'seedall_{name}_', dir='/tmp'); os.rmdir(wt)
-subprocess.run(f'git -C /repo worktree add -q --detach {wt} {BASE} && git -C {wt} apply {VERIF}/seeded/{name}/patch.diff', shell=True, check=True)
+sys.path.insert(0, os.path.join(VERIF, 'tools'))
+import wt as _wt
+wt, _info = _wt.make(os.path.join(VERIF, 'seeded', name), f'seedall_{name}')
+print(name, _info)
 try:
     from concurrent.futures import ThreadPoolExecutor
     def one(pid):
